@@ -373,10 +373,6 @@ TOL = 1e-12
 KNAME = {"C": "CanonicalTensor", "T": "TuckerTensor", "S": "TensorSum", "P": "TensorProd", "A": "ndarray", "x": "scalar"}
 
 
-class Rejected(Exception):
-    pass
-
-
 _MATS = {}
 
 
